@@ -58,7 +58,7 @@ func (e *Enc) call(fr *Frame, x *ssa.Call, st *State) {
 			if _, lit := a.(*ssa.MakeClosure); lit {
 				continue
 			}
-			if v := e.val(fr, a); len(v.T) == 1 && v.T[0].sort == "Fn" {
+			if v := e.val(fr, a); len(v.T) == 1 && v.T[0].sort == "Fn" && e.mayBeYield(a.Type()) {
 				isY = e.tb.Or(isY, e.tb.Eq(v.T[0], e.yieldParam))
 			}
 		}
@@ -672,6 +672,9 @@ func (e *Enc) dynamicCall(fr *Frame, x *ssa.Call, st *State, args []Val) {
 		// possibly a call of the protocol callback: calling it after it returned false is the violation; its result is
 		// the new state
 		isY := e.tb.Eq(f.t(), e.yieldParam)
+		if !e.mayBeYield(c.Value.Type()) {
+			isY = e.tb.False()
+		}
 		stopped, bad := e.yieldStopped(st), e.yieldBad(st)
 		cnt := e.yieldCount(st)
 		e.yieldArgsObligation(fr, x, st, isY, args)
@@ -2302,4 +2305,12 @@ func (e *Enc) onceCellsOf(fn *ssa.Function) map[*ssa.Alloc]*ssa.Store {
 		e.onceCells[fn] = once
 	}
 	return once
+}
+
+// mayBeYield: a value of this static type can be the `yields` callback (same function signature)
+func (e *Enc) mayBeYield(t types.Type) bool {
+	if e.yieldType == nil {
+		return true
+	}
+	return types.Identical(t.Underlying(), e.yieldType.Underlying())
 }
